@@ -417,11 +417,48 @@ func (x *seqExec) doListing(seed uint64) {
 		prefixes = append(prefixes, digitsOf(hf(x.m.Keys[r.Intn(len(x.m.Keys))].Key), 16)[:1])
 	}
 	for _, p := range prefixes {
+		want := t.expect(p, x.plan.Cfg.ListKeyThreshold)
+		if len(p) < x.plan.Cfg.depth() && r.Bool(1, 2) {
+			// a listing above bucket level, asked for by two clients at the same time (two sync
+			// peers): both answers must be right. (The upper nodes are rebuilt in place per request.)
+			got2, ok2 := listing{}, false
+			done := false
+			pfx := prefixString(p)
+			x.g.W.GoHarness("lister2", func() {
+				c2 := x.g.NewConn()
+				rr := c2.Do(cmdGet("@" + pfx))
+				if rr.Status == "END" && len(rr.Items) == 1 && !rr.Budget {
+					if l, err := parseListing(rr.Items[0].Bytes); err == nil {
+						got2, ok2 = l, true
+					}
+				} else if rr.Status == "END" && len(rr.Items) == 0 {
+					got2, ok2 = listing{Kind: "empty"}, true
+				}
+				c2.Close()
+				done = true
+			})
+			got, ok := x.fetchListing(pfx)
+			x.g.W.WaitCond("lister2-done", func() bool { return done })
+			if !ok {
+				return
+			}
+			x.compareListing(p, got, want, tomb)
+			if x.viol == nil && ok2 {
+				x.compareListing(p, got2, want, tomb)
+				if x.viol != nil {
+					x.viol.Sub = "concurrent-listing/" + x.viol.Sub
+				}
+				x.out.probe("upper-listing-by-two-clients-at-once")
+			}
+			if x.viol != nil {
+				return
+			}
+			continue
+		}
 		got, ok := x.fetchListing(prefixString(p))
 		if !ok {
 			return
 		}
-		want := t.expect(p, x.plan.Cfg.ListKeyThreshold)
 		x.compareListing(p, got, want, tomb)
 		if x.viol != nil {
 			return
